@@ -559,7 +559,7 @@ func (i *IniParser) parse(ini *ini) error {
 					parts := strings.SplitN(inival.Value, ":", 2)
 
 					// only handle unquoting
-					if len(parts) == 2 && parts[1][0] == '"' {
+					if len(parts) == 2 && len(parts[1]) > 0 && parts[1][0] == '"' {
 						if v, err := strconv.Unquote(parts[1]); err == nil {
 							parts[1] = v
 
